@@ -368,6 +368,9 @@ def call_builtin(ip, st, name, pos, kws, node):
         raise U("sorted")
     if name == "type":
         raise U("type()")
+    if name == "open":
+        from .lib import lib_open
+        return lib_open(ip, st, pos, kws)
     if name == "super":
         if len(pos) == 2 and isinstance(pos[0], Fun) and pos[0].kind == "class" and isinstance(pos[1], Ref):
             return [(st, Fun("super", cls=pos[0].name, self_ref=pos[1]))]
